@@ -13,7 +13,7 @@ RULE = ("programs split over 1..4 module files in nested directories (main -> A,
         "Also compared with the Lean model. Non-trivial: at least two files define the same name.")
 ASSUMPTIONS = ["user identifiers contain no '/' (NoSlash); module paths are clean relative paths"]
 default_compare = lambda m, i: C.compare_run(m, i)
-POOL = ["ক", "খ", "গ"]
+POOL = ["ক", "_খ", "গ"]   # one user name starts with an underscore like the built-ins do (private-helper convention): it is namespaced like any other
 FILES = ["a.pakhi", "lib/b.pakhi", "lib/inner/c.pakhi", "d.pakhi"]
 KEEP = None
 
